@@ -34,20 +34,20 @@ theorem C09_number_nearest_tick (x : Num) (len : Nat) (signed : Bool) (res ofs :
     (h : encodeNumber (numVal x) len signed res ofs = .ok n) :
     ∃ z : Int, |((z : Int) : Rat) - quotient x res ofs| ≤ 1 / 2 ∧ numLo len signed ≤ z ∧ z ≤ numHi len signed ∧
       contrib n len = contrib z len ∧ 0 ≤ n ∧ n < ((2 ^ len : Nat) : Int) := by
-  sorry
+  exact Enc02.encodeNumber_nearest x len signed res ofs n hl hres h
 
 /-- **Out of range is rejected**: a value whose nearest tick is outside the representable interval
 is an error (one step beyond either end, far out, negative for unsigned). -/
 theorem C09_number_range_rejected (x : Num) (len : Nat) (signed : Bool) (res ofs : Lit) (hres : res.val ≠ 0)
     (h : rhe (quotient x res ofs) < numLo len signed ∨ numHi len signed < rhe (quotient x res ofs)) :
     encodeNumber (numVal x) len signed res ofs = .error .range := by
-  sorry
+  exact Enc02.encodeNumber_range_rejected x len signed res ofs hres h
 
 /-- non-finite numbers are rejected -/
 theorem C09_number_nonfinite (len : Nat) (signed : Bool) (res ofs : Lit) :
     encodeNumber .nan len signed res ofs = .error .notFinite ∧
     ∀ b, encodeNumber (.inf b) len signed res ofs = .error .notFinite := by
-  sorry
+  exact ⟨rfl, fun _ => rfl⟩
 
 /-- **absent ↦ absent**: no value encodes to the pattern that decodes to no value -/
 theorem C09_absent (data off len : Nat) (signed : Bool) (res mn mx ofs : Lit) (n : Int)
@@ -55,14 +55,14 @@ theorem C09_absent (data off len : Nat) (signed : Bool) (res mn mx ofs : Lit) (n
     (h : encodeNumber .none len signed res ofs = .ok n)
     (hbits : Straight.decode_int data off len = contrib n len) :
     decodeNumber data off len signed res mn mx ofs = .ok none := by
-  sorry
+  exact Enc02.absent_dec data off len signed res mn mx ofs n hl hs h hbits
 
 /-- **A missing field is an error**: if some step of the encoder names a field the message does not
 have, encoding fails (with the missing-field error or an earlier one) — never a payload. -/
 theorem C09_missing_field (env : Env) (fn : EncFn) (fs : List Field) (id name : String) (k : EncKind) (mask off : Nat)
     (hstep : EncStep.field id name k mask off ∈ fn.steps) (hmiss : getField fs id = none) :
     ∀ bytes, runEnc env fn fs ≠ .ok bytes := by
-  sorry
+  exact Enc02.runEnc_missing env fn fs id name k mask off hstep hmiss
 
 /-- the integer accumulated by the encoder steps -/
 def encInt (env : Env) (fn : EncFn) (fs : List Field) : Except EncErr Nat := runSteps env fs 0 fn.steps
@@ -78,12 +78,17 @@ theorem C09_one_field_locality (env : Env) (fn : EncFn) (fs fs' : List Field) (i
     (hdisj : ∀ s ∈ fn.steps, ∀ i n kk l o, s = EncStep.field i n kk (2 ^ l - 1) o → (i = id' ∧ l = len' ∧ o = off') ∨ o + l ≤ off' ∨ off' + len' ≤ o)
     (hmasks : ∀ s ∈ fn.steps, ∀ i n kk mk o, s = EncStep.field i n kk mk o → ∃ l, mk = 2 ^ l - 1) :
     Straight.decode_int a off' len' = Straight.decode_int b off' len' := by
-  sorry
+  have _ := hstep
+  refine Enc02.runSteps_local env fs fs' id hsame off' len' fn.steps 0 0 a b hmasks ?_ rfl ha hb
+  intro s hs i n kk l o e
+  rcases hdisj s hs i n kk l o e with ⟨h, -, -⟩ | h
+  · exact Or.inl (h ▸ hne)
+  · exact Or.inr h
 
 /-- **Exact kinds, when the raw fits** (`_partial`: without `hfit` the value is masked, see the
 known findings): a LOOKUP / DATE raw or a RESERVED value in `0 ≤ v < 2^len` is stored unchanged -/
 theorem C09_raw_exact_partial (v : Nat) (len : Nat) (hfit : v < 2 ^ len) : contrib (v : Int) len = v := by
-  sorry
+  exact Enc02.ctr_nat v len hfit
 
 -- witness of the gap (documented as a known finding): a RESERVED value that does not fit is wrapped
 example : contrib 300 8 = 44 := by decide
